@@ -578,3 +578,151 @@ def make_adjoint_contracts(cls):
 
 for _c in KNOT_FIELDS:
     make_adjoint_contracts(_c)
+
+
+# ================================================================================================ analytic energy gradients (C06 ii)
+# For the energy J = E the right-hand side of the adjoint system is, knot by knot, a multiple of the jump of a derivative of
+# order s..2s-2 (first variation of the integral with respect to end data = boundary terms), which vanishes by the optimality
+# conditions (C02).  Hence lam = 0 solves (E1) and the total derivative is the direct part of (E2..E4):
+#      dE/dh_i = dE/dT_i|_C + sum_m dE/dc_im * dc_im/dh_i,   dE/dP_j = pull-backs of the two adjacent segments,   etc.
+# with dE/dc the partial derivatives of the spec energy integral.  Each of these is a per-segment identity.
+class EnergyAdjoint(Adjoint):
+    def __init__(self, S, cls):
+        Adjoint.__init__(self, S, cls, None, None)
+        self.C = S.v('coeffs_')
+        self.T = lambda i: S.v('time_segments_').at(i)
+
+    def seg_total_d(self, i, d):
+        return seg_energy(self.C, self.nc, i, self.s, self.T(i), d)
+
+    def g(self, i, m, d):
+        i = E.const(i)
+        return d_wrt_cell(self.seg_total_d(i, d), self.C.at(i * self.nc + m, d))
+
+    def dEdT(self, i):
+        i = E.const(i)
+        return esum([d_wrt_cell(self.seg_total_d(i, d), self.T(i)) for d in range(self.D)])
+
+
+def make_energy_grad_contracts(cls):
+    s = ORDER_OF[cls]
+    b = s - 1
+    nc = 2 * s
+    kf = KNOT_FIELDS[cls]
+    BCN = ['v', 'a', 'j'][:b]
+
+    def built(S, A):
+        """a built spline: cached time powers, knot derivatives, and coefficients in first-principles Hermite form (C01/C02)"""
+        n = S.num_segments_
+        S.requires(sizes_ok(S, cls), 'sizes')
+        for p in all_tp_ok(S, cls):
+            S.requires(p, 'time_powers')
+        S.requires(conj([x.R.eq(n + 1) for x in A.X[1:]]) & A.C.R.eq(nc * n), 'shapes')
+        for d in dims(S):
+            S.requires(S.forall(0, n, lambda i, d=d: herm(S, A, i, d)), 'hermite_coefficients_%d' % d)
+        # the published trajectory is (knot times, coefficients) of this spline (C01), for code that reads it instead of coeffs_
+        for label, p in published(S, cls):
+            if label.startswith('trajectory_') or label.startswith('knot_times') or label == 'segment_count':
+                S.requires(p, 'published_' + label)
+
+    def herm(S, A, i, d):
+        hc = hermite_coeffs(s, iv_pow_of(S, i), [A.X[k].at(i, d) for k in range(s)], [A.X[k].at(E.const(i) + 1, d) for k in range(s)])
+        return [A.C.at(E.const(i) * nc + m, d).eq(hc[m]) for m in range(nc)]
+
+    def local_pre(S, A, i, DSall):
+        return [('tp', conj(tp_ok(S, i, cls)))] + [('herm_%d' % d, conj(herm(S, A, i, d))) for d in DSall]
+
+    class EnergyGradTimes(Contract):
+        key = cls + '.getEnergyGradTimes'
+
+        def spec(self, S):
+            D = S.cfg['DIM']
+            n = S.num_segments_
+            A = EnergyAdjoint(S, cls)
+            G = S.v('result')
+            built(S, A)
+            S.assigns()
+            want = lambda i: A.dEdT(i) + esum([A.PBH(i, d) for d in range(D)])
+            S.ensures(G.R.eq(n), 'size')
+            S.ensures(S.forall(0, n, lambda i: [G.at(i, 0).eq(want(i))]), 'duration_gradient_is_partial_plus_pullback_of_coefficient_partials')
+            S.terms(0, n)
+            S.loop(0, inv=lambda L: [('range', (L.i >= 0) & (L.i <= n)), ('size', L.grad.R.eq(n)),
+                                     ('done', S.forall(0, L.i, lambda k: [L.grad.at(k, 0).eq(want(k))]))],
+                   variant=lambda L: n - L.i, terms=lambda L: [L.i],
+                   local=dict(pre=lambda L: local_pre(S, A, L.i, range(D)), post=lambda L: [('dT', L.grad.at(L.i, 0).eq(want(L.i)))]))
+
+    class EnergyGradInnerPoints(Contract):
+        key = cls + '.getEnergyGradInnerPoints'
+
+        def spec(self, S):
+            D = S.cfg['DIM']
+            DS = dims(S)
+            n = S.num_segments_
+            A = EnergyAdjoint(S, cls)
+            G = S.v('result')
+            built(S, A)
+            S.assigns()
+            want = lambda j, d: A.PBP0(j, d) + A.PBP1(j - 1, d)
+            S.ensures(G.R.eq(n - 1), 'rows')
+            for d in DS:
+                S.ensures(S.forall(1, n, lambda j, d=d: [G.at(j - 1, d).eq(want(j, d))]), 'inner_point_gradient_is_pullback_of_coefficient_partials_%d' % d)
+            # the right-hand side of the adjoint system vanishes (so that zero multipliers solve it): consequence of the
+            # continuity of the derivatives of order s..2s-2 at interior knots
+            hfun = lambda i: tp_field(S, i, 'h')
+            for d in DS:
+                for k in range(s, 2 * s - 1):
+                    S.requires(S.forall(1, n, lambda m, k=k, d=d: der(A.C, nc, m, k, 0, d).eq(der(A.C, nc, m - 1, k, hfun(m - 1), d))), 'continuous_derivative_%d_%d' % (k, d))
+                S.ensures(S.forall(1, n, lambda m, d=d: [A.GX(m, j, d).eq(0) for j in range(1, s)], inst=[S.sk(0), S.sk(0) - 1]), 'adjoint_right_hand_side_vanishes_%d' % d)
+            S.terms(0, 1, n, n - 1, S.sk(0) - 1, S.sk(0) + 1)
+            if S.mode != 'verify':
+                return
+
+            def rhs_zero(G_):
+                m = S.sk(0)
+                inr = (m >= 1) & (m < n)
+                for d in DS:
+                    hyps = [implies(inr, x) for x in herm(S, A, m - 1, d) + herm(S, A, m, d) + tp_ok(S, m - 1, cls) + tp_ok(S, m, cls)]
+                    hyps += [implies(inr, der(A.C, nc, m, k, 0, d).eq(der(A.C, nc, m - 1, k, hfun(m - 1), d))) for k in range(s, 2 * s - 1)]
+                    G_.abstract_lemma('rhs_zero_%d' % d, hyps, [implies(inr, A.GX(m, j, d).eq(0)) for j in range(1, s)])
+            S.ghost('exit', rhs_zero)
+            S.loop(0, inv=lambda L: [('range', (L.i >= 1) & (L.i <= n)), ('rows', L.grad.R.eq(n - 1))] +
+                   [('done_%d' % d, S.forall(1, L.i, lambda j, d=d: [L.grad.at(j - 1, d).eq(want(j, d))])) for d in DS],
+                   variant=lambda L: n - L.i, terms=lambda L: [L.i, L.i - 1],
+                   local=dict(pre=lambda L: [('j', (L.i >= 1) & (L.i < n))] + local_pre(S, A, L.i, DS) +
+                              [('tp_prev', conj(tp_ok(S, L.i - 1, cls)))] + [('herm_prev_%d' % d, conj(herm(S, A, L.i - 1, d))) for d in DS],
+                              post=lambda L: [('dP_%d' % d, L.grad.at(L.i - 1, d).eq(want(L.i, d))) for d in DS]))
+
+    class EnergyGradBoundary(Contract):
+        key = cls + '.getEnergyGradBoundary'
+
+        def spec(self, S):
+            DS = dims(S)
+            n = S.num_segments_
+            A = EnergyAdjoint(S, cls)
+            R = S.v('result')
+            built(S, A)
+            S.assigns()
+            S.terms(0, n - 1, n)
+            SG, EG = R.fields['start'], R.fields['end']
+            posts = []
+            for d in DS:
+                posts.append(('start_point_gradient_is_pullback_%d' % d, SG.fields['p'].at(d, 0).eq(A.PBP0(0, d))))
+                posts.append(('end_point_gradient_is_pullback_%d' % d, EG.fields['p'].at(d, 0).eq(A.PBP1(n - 1, d))))
+                for j, nm in enumerate(BCN, 1):
+                    posts.append(('start_%s_gradient_is_pullback_%d' % (nm, d), SG.fields[nm].at(d, 0).eq(A.PBX0(0, j, d))))
+                    posts.append(('end_%s_gradient_is_pullback_%d' % (nm, d), EG.fields[nm].at(d, 0).eq(A.PBX1(n - 1, j, d))))
+            for lab, p_ in posts:
+                S.ensures(p_, lab)
+            if S.mode == 'verify':
+                pre = [('n', n >= 1), ('tp_first', conj(tp_ok(S, 0, cls))), ('tp_last', conj(tp_ok(S, n - 1, cls)))]
+                for d in DS:
+                    pre += [('herm_first_%d' % d, conj(herm(S, A, 0, d))), ('herm_last_%d' % d, conj(herm(S, A, n - 1, d)))]
+                S.body_lemma(pre, posts)
+
+    for c in (EnergyGradTimes, EnergyGradInnerPoints, EnergyGradBoundary):
+        c.__name__ = cls + c.__name__
+        register(c)
+
+
+for _c in KNOT_FIELDS:
+    make_energy_grad_contracts(_c)
